@@ -1,4 +1,5 @@
 import Hifi.Model.EpochText
+import Hifi.Model.Efmt
 import Hifi.Spec.EpochText
 import Hifi.Lemmas.Calendar
 /-
@@ -415,9 +416,122 @@ theorem tz_spec (st : GSt) (hoh : 0 ≤ st.oh ∧ st.oh ≤ 23) (hom : 0 ≤ st.
   · rw [if_neg hs, if_neg hs]
     exact ⟨_, rfl, h3.1, by rw [h3.2]; omega⟩
 
+/-! ### whatever the year, `maybe_from_gregorian` returns a canonical duration (so that `compute_gregorian`,
+  applied to it by the leap-second label check, is total) -/
+
+theorem fitsI64_of_bounds {q : Int} (h : -9000000000000000000 ≤ q ∧ q ≤ 9000000000000000000) : fitsI64 q = true := by
+  unfold fitsI64; simp only [decide_eq_true_eq]; omega
+
+theorem unitMul_canon (f q : Int)
+    (hf : f = 1 ∨ f = 1000000000 ∨ f = 60000000000 ∨ f = 3600000000000 ∨ f = 86400000000000)
+    (hq : fitsI64 q = true) : (Dur.unitMulI64 f q).Canon :=
+  (unitMulI64_spec f q (Cal.mem_unitFactors f hf) hq).1
+
+theorem dayDur_canon (q : Int) (hq : fitsI64 q = true) : (Cal.dayDur q).Canon := by
+  unfold Cal.dayDur; rw [Cal.NPD_eq]; exact unitMul_canon _ q (by omega) hq
+
+theorem addLeapDays_canon (n : Nat) : ∀ (y : Int) (d : Dur), d.Canon → (Cal.addLeapDays n y d).Canon := by
+  induction n with
+  | zero => intro y d hd; unfold Cal.addLeapDays; exact hd
+  | succ n ih =>
+    intro y d hd
+    unfold Cal.addLeapDays
+    split
+    · exact ih _ _ (add_spec d _ hd (dayDur_canon 1 (by decide))).1
+    · exact ih _ _ hd
+
+theorem subLeapDays_canon (n : Nat) : ∀ (y : Int) (d : Dur), d.Canon → (Cal.subLeapDays n y d).Canon := by
+  induction n with
+  | zero => intro y d hd; unfold Cal.subLeapDays; exact hd
+  | succ n ih =>
+    intro y d hd
+    unfold Cal.subLeapDays
+    split
+    · exact ih _ _ (sub_spec d _ hd (dayDur_canon 1 (by decide))).1
+    · exact ih _ _ hd
+
+theorem gregYearPart_canon (y : Int) (hq : fitsI64 ((y - Cal.REF_YEAR) * Cal.DPY) = true) : (Cal.gregYearPart y).Canon := by
+  unfold Cal.gregYearPart
+  split
+  · exact addLeapDays_canon _ _ _ (dayDur_canon _ hq)
+  · exact subLeapDays_canon _ _ _ (dayDur_canon _ hq)
+
+theorem cumulAt_bounds (y mo : Int) : 0 ≤ Cal.cumulAt y mo ∧ Cal.cumulAt y mo ≤ 335 := by
+  have key : ∀ (n : Nat), (0 ≤ Gen.CUMULATIVE_DAYS_FOR_MONTH.getD n 0 ∧ Gen.CUMULATIVE_DAYS_FOR_MONTH.getD n 0 ≤ 335) ∧
+      (0 ≤ Gen.CUMULATIVE_DAYS_FOR_MONTH_LEAP_YEARS.getD n 0 ∧ Gen.CUMULATIVE_DAYS_FOR_MONTH_LEAP_YEARS.getD n 0 ≤ 335) := by
+    intro n
+    by_cases hn : n < 12
+    · have : n = 0 ∨ n = 1 ∨ n = 2 ∨ n = 3 ∨ n = 4 ∨ n = 5 ∨ n = 6 ∨ n = 7 ∨ n = 8 ∨ n = 9 ∨ n = 10 ∨ n = 11 := by omega
+      rcases this with h | h | h | h | h | h | h | h | h | h | h | h <;> subst h <;> decide
+    · have h1 : Gen.CUMULATIVE_DAYS_FOR_MONTH.length = 12 := by decide
+      have h2 : Gen.CUMULATIVE_DAYS_FOR_MONTH_LEAP_YEARS.length = 12 := by decide
+      rw [List.getD_eq_getElem?_getD, List.getD_eq_getElem?_getD, List.getElem?_eq_none (by omega),
+        List.getElem?_eq_none (by omega)]
+      simp
+  unfold Cal.cumulAt Cal.cumulDays
+  split
+  · exact (key _).2
+  · exact (key _).1
+
+/-- every duration `maybe_from_gregorian` returns is canonical (fields non-negative, as the parser has them) -/
+theorem maybeFromGregorian_canon (y mo d h mi s ns : Int) (ts : TS) (e : Dur)
+    (hmo : 0 ≤ mo) (hd : 0 ≤ d) (hh : 0 ≤ h) (hmi : 0 ≤ mi) (hs : 0 ≤ s) (hns : 0 ≤ ns)
+    (he : Cal.maybeFromGregorian y mo d h mi s ns ts = .ok e) : e.Canon := by
+  unfold Cal.maybeFromGregorian at he
+  rw [validPanics_false] at he
+  simp only [Bool.false_eq_true, if_false] at he
+  by_cases hv : Cal.isGregorianValidCore y mo d h mi s ns = false
+  · rw [if_pos hv] at he; cases he
+  · rw [if_neg hv] at he
+    by_cases h1 : Cal.fitsI32 (y - Cal.REF_YEAR) = false
+    · rw [if_pos h1] at he; cases he
+    · rw [if_neg h1] at he
+      by_cases h2 : Cal.fitsI32 ((y - Cal.REF_YEAR) * Cal.DPY) = false
+      · rw [if_pos h2] at he; cases he
+      · rw [if_neg h2] at he
+        simp only [Res.ok.injEq] at he
+        subst he
+        have hv' : Cal.isGregorianValidCore y mo d h mi s ns = true := by simpa using hv
+        have hr := Cal.validCore_ranges y mo d h mi s ns hmo hd hv'
+        have h2' : Cal.fitsI32 ((y - Cal.REF_YEAR) * Cal.DPY) = true := by simpa using h2
+        unfold Cal.fitsI32 at h2'; simp only [decide_eq_true_eq] at h2'
+        have hyp := gregYearPart_canon y (fitsI64_of_bounds (by omega))
+        have hcb := cumulAt_bounds y mo
+        have hoff := Cal.gregOff_val ts
+        unfold Cal.gregFinish Cal.leapSecondAdj Cal.gregTimePart
+        simp only [Cal.NPH_eq, Cal.NPMIN_eq, Cal.NPS_eq]
+        have c1 := (add_spec _ _ hyp (dayDur_canon (Cal.cumulAt y mo) (fitsI64_of_bounds (by omega)))).1
+        have t1 := (add_spec _ _ (dayDur_canon (d - 1) (fitsI64_of_bounds (by omega)))
+          (unitMul_canon 3600000000000 h (by omega) (fitsI64_of_bounds (by omega)))).1
+        have t2 := (add_spec _ _ t1 (unitMul_canon 60000000000 mi (by omega) (fitsI64_of_bounds (by omega)))).1
+        have t3 := (add_spec _ _ t2 (unitMul_canon 1000000000 s (by omega) (fitsI64_of_bounds (by omega)))).1
+        have t4 := (add_spec _ _ t3 (unitMul_canon 1 ns (by omega) (fitsI64_of_bounds (by omega)))).1
+        have c2 := (add_spec _ _ c1 t4).1
+        split
+        · exact (sub_spec _ _ (sub_spec _ _ c2 (unitMul_canon 1000000000 1 (by omega) (by decide))).1 hoff.1).1
+        · exact (sub_spec _ _ c2 hoff.1).1
+
+/-- `compute_gregorian` is total on canonical durations -/
+theorem computeGregorian_ok (e : Dur) (ts : TS) (he : e.Canon) : ∃ f, Cal.computeGregorian e ts = .ok f := by
+  have hoff := Cal.gregOff_val ts
+  have hw := (add_spec e _ he hoff.1).1
+  obtain ⟨days, h, mi, s, ms, us, ns, e1, _⟩ := Cal.splitDays_spec _ hw
+  unfold Cal.computeGregorian
+  rw [e1]
+  exact ⟨_, rfl⟩
+
+theorem leapLabelOk_ne_panic (e : Dur) (ts : TS) (he : e.Canon) : leapLabelOk e ts ≠ .panic := by
+  obtain ⟨⟨y, m, d, hh, mm, ss, n⟩, hf⟩ := computeGregorian_ok e ts he
+  unfold leapLabelOk
+  rw [hf]
+  simp only
+  split
+  · unfold Cal.isGregorianValid; rw [validPanics_false]; simp
+  · simp
+
 theorem finishGreg_ne_panic (st : GSt) (hi : Inv st) : finishGreg st ≠ .panic := by
   obtain ⟨h1, h2, h3, h4, h5, h6, h7, h8⟩ := hi
-  obtain ⟨tz, htz, _, _⟩ := tz_spec st h7 h8
+  obtain ⟨tz, htz, hcz, _⟩ := tz_spec st h7 h8
   unfold finishGreg
   rw [htz]
   simp only
@@ -425,9 +539,19 @@ theorem finishGreg_ne_panic (st : GSt) (hi : Inv st) : finishGreg st ≠ .panic 
       ∧ fitsU32 st.ns = true := by
     unfold fitsU8 fitsU32; simp only [decide_eq_true_eq]; omega
   rw [if_pos hf]
-  have := maybeFromGregorian_ne_panic st.y st.mo st.d st.h st.mi st.sec st.ns st.ts
-  cases hm : Cal.maybeFromGregorian st.y st.mo st.d st.h st.mi st.sec st.ns st.ts with
-  | ok d => simp
+  have := maybeFromGregorian_ne_panic st.y st.mo st.d st.h st.mi (if st.sec = 60 then 59 else st.sec) st.ns st.ts
+  cases hm : Cal.maybeFromGregorian st.y st.mo st.d st.h st.mi (if st.sec = 60 then 59 else st.sec) st.ns st.ts with
+  | ok d =>
+    simp only
+    have hdc := maybeFromGregorian_canon _ _ _ _ _ _ _ _ d h1.1 h2.1 h3.1 h4.1 (by split <;> omega) h6.1 hm
+    have hac := (add_spec d tz hdc hcz).1
+    have hl := leapLabelOk_ne_panic (Dur.add d tz) st.ts hac
+    split
+    · cases hlo : leapLabelOk (Dur.add d tz) st.ts with
+      | ok b => cases b <;> simp
+      | err => simp
+      | panic => exact absurd hlo hl
+    · simp
   | err => simp
   | panic => exact absurd hm this
 
@@ -642,47 +766,237 @@ theorem numericEpoch_ne_panic (fmt : Nat) (ts : TS) (bits : Nat) (dur : TS → D
   unfold numericEpoch
   simp only [hf, Bool.true_eq_false, if_false]
   split
-  · split
-    · simp
-    · split <;> simp
-  · split
-    · split <;> simp
-    · split <;> simp
+  · simp
+  · split <;> simp
 
-theorem numericForm_ne_panic (s : List Nat) (start fmt : Nat) (dur : Nat → Nat → TS → Dur) (h7 : 7 ≤ byteLen s)
-    (hs : (dropBytes s start).isSome = true) (hst : start ≤ 3) : numericForm s start fmt dur ≠ .panic := by
+theorem dropBytes_prefix : ∀ (a u : List Nat), dropBytes (a ++ u) (byteLen a) = some u
+  | [], u => by simp [byteLen, dropBytes_zero]
+  | c :: r, u => by
+    have hp := utf8Size_pos c
+    rw [byteLen_cons]
+    obtain ⟨k, hk⟩ : ∃ k, utf8Size c + byteLen r = k + 1 := ⟨utf8Size c + byteLen r - 1, by omega⟩
+    rw [hk]
+    simp only [List.cons_append]
+    rw [dropBytes_cons_succ, if_pos (by omega)]
+    have : k + 1 - utf8Size c = byteLen r := by omega
+    rw [this]; exact dropBytes_prefix r u
+
+theorem dropBytes_suffix : ∀ (s : List Nat) (k : Nat) (t : List Nat), dropBytes s k = some t → ∃ pre, s = pre ++ t
+  | s, 0, t, h => by rw [dropBytes_zero] at h; simp only [Option.some.injEq] at h; exact ⟨[], by simp [h]⟩
+  | [], k + 1, t, h => by simp [dropBytes] at h
+  | c :: r, k + 1, t, h => by
+    rw [dropBytes_cons_succ] at h
+    by_cases hc : utf8Size c ≤ k + 1
+    · rw [if_pos hc] at h
+      obtain ⟨pre, hpre⟩ := dropBytes_suffix r _ t h
+      exact ⟨c :: pre, by rw [hpre]; rfl⟩
+    · rw [if_neg hc] at h; simp at h
+
+theorem dropWhile_head_not (p : Nat → Bool) : ∀ (l : List Nat) (a : Nat) (r : List Nat),
+    l.dropWhile p = a :: r → p a = false
+  | [], a, r, h => by simp at h
+  | x :: l, a, r, h => by
+    by_cases hx : p x = true
+    · rw [List.dropWhile_cons_of_pos hx] at h; exact dropWhile_head_not p l a r h
+    · rw [List.dropWhile_cons_of_neg hx] at h
+      simp only [List.cons.injEq] at h
+      rw [← h.1]; simpa using hx
+
+/-- `trim` leaves no white space at the end -/
+theorem trim_last_not_ws (X : List Nat) : ∀ c, (trim X).getLast? = some c → isWhitespace c = false := by
+  intro c hc
+  unfold trim trimEnd at hc
+  rw [List.getLast?_reverse] at hc
+  cases hd : (trimStart X).reverse.dropWhile isWhitespace with
+  | nil => rw [hd] at hc; simp at hc
+  | cons a r =>
+    rw [hd] at hc
+    simp only [List.head?_cons, Option.some.injEq] at hc
+    subst hc
+    exact dropWhile_head_not isWhitespace _ _ _ hd
+
+theorem tsFromStr_nil : tsFromStr [] = none := by decide
+
+/-- a suffix of a trimmed text that `TimeScale::from_str` accepts is some white space followed by the spelling:
+    nothing is trimmed at its end, so the numeral ends on a character boundary -/
+theorem suffix_shape (s t : List Nat) (k : Nat) (ts : TS) (hs : ∀ c, s.getLast? = some c → isWhitespace c = false)
+    (hd : dropBytes s k = some t) (h : tsFromStr t = some ts) :
+    ∃ a, t = a ++ trim t ∧ isAscii (trim t) = true ∧ 2 ≤ (trim t).length := by
+  have hm := lookup_mem _ _ _ (by unfold tsFromStr at h; exact h)
+  have hsp := List.all_eq_true.mp ts_spellings_shape _ hm
+  simp only [Bool.and_eq_true, decide_eq_true_eq] at hsp
+  refine ⟨t.takeWhile isWhitespace, ?_, hsp.1, hsp.2⟩
+  obtain ⟨pre, hpre⟩ := dropBytes_suffix s k t hd
+  have hsplit : t = t.takeWhile isWhitespace ++ trimStart t := (List.takeWhile_append_dropWhile).symm
+  -- `trimStart t` is not empty (else `from_str` gets the empty string) and ends as `s` does
+  have hne : trimStart t ≠ [] := by
+    intro e
+    have : trim t = [] := by unfold trim trimEnd; rw [e]; rfl
+    rw [this] at hsp; simp at hsp
+  have hlast : ∀ c, (trimStart t).getLast? = some c → isWhitespace c = false := by
+    intro c hc
+    apply hs c
+    rw [hpre]
+    conv => lhs; rw [hsplit]
+    rw [← List.append_assoc, List.getLast?_append]
+    rw [hc]; rfl
+  have htrim : trim t = trimStart t := by
+    unfold trim
+    cases hr : (trimStart t).reverse with
+    | nil => simp at hr; exact absurd hr hne
+    | cons e r' =>
+      have hT : trimStart t = r'.reverse ++ [e] := by
+        have := congrArg List.reverse hr
+        simpa using this
+      rw [hT]
+      apply trimEnd_id
+      apply hlast
+      rw [hT]; simp
+  rw [htrim]; exact hsplit
+
+theorem suffixTs_some (s : List Nat) : ∀ (l : List Nat) (ts : TS) (t : List Nat), suffixTs s l = some (ts, t) →
+    ∃ n, n ∈ l ∧ n ≤ byteLen s ∧ sliceOpt s (byteLen s - n) (byteLen s) = some t ∧ tsFromStr t = some ts
+  | [], ts, t, h => by simp [suffixTs] at h
+  | n :: rest, ts, t, h => by
+    unfold suffixTs at h
+    by_cases hn : byteLen s < n
+    · rw [if_pos hn] at h
+      obtain ⟨m, hm, h2⟩ := suffixTs_some s rest ts t h
+      exact ⟨m, List.mem_cons_of_mem _ hm, h2⟩
+    · rw [if_neg hn] at h
+      cases hsl : sliceOpt s (byteLen s - n) (byteLen s) with
+      | none =>
+        rw [hsl] at h
+        obtain ⟨m, hm, h2⟩ := suffixTs_some s rest ts t h
+        exact ⟨m, List.mem_cons_of_mem _ hm, h2⟩
+      | some u =>
+        rw [hsl] at h
+        simp only at h
+        cases hts : tsFromStr u with
+        | none =>
+          rw [hts] at h
+          obtain ⟨m, hm, h2⟩ := suffixTs_some s rest ts t h
+          exact ⟨m, List.mem_cons_of_mem _ hm, h2⟩
+        | some ts' =>
+          rw [hts] at h
+          simp only [Option.some.injEq, Prod.mk.injEq] at h
+          obtain ⟨h1, h2⟩ := h
+          subst h1 h2
+          exact ⟨n, by simp, by omega, hsl, hts⟩
+
+theorem numericForm_ne_panic (s : List Nat) (p0 p1 : Nat) (rest2 : List Nat) (start fmt : Nat)
+    (dur : Nat → Nat → TS → Dur) (h7 : 7 ≤ byteLen s)
+    (hshape : s = p0 :: p1 :: rest2) (hp : p0 < 128 ∧ p1 < 128)
+    (hlast : ∀ c, s.getLast? = some c → isWhitespace c = false)
+    (hst : start = 2 ∨ (start = 3 ∧ ∃ p2 rest, rest2 = p2 :: rest ∧ p2 < 128 ∧ p2 ≠ 81)) :
+    numericForm s start fmt dur ≠ .panic := by
   unfold numericForm
-  rw [if_neg (by omega)]
-  cases h1 : sliceOpt s (byteLen s - 3) (byteLen s) with
+  cases hsx : suffixTs s [5, 4, 3] with
   | none => simp
-  | some tsStr =>
+  | some p =>
+    obtain ⟨ts, tsStr⟩ := p
     simp only
-    cases h2 : tsFromStr tsStr with
+    obtain ⟨n, hn, hnl, h1, h2⟩ := suffixTs_some s _ ts tsStr hsx
+    have hd := sliceOpt_suffix s _ tsStr h1
+    have hbl := dropBytes_byteLen s _ tsStr hd
+    have hnb : byteLen tsStr = n := by omega
+    obtain ⟨a, ha, hasc, hlen2⟩ := suffix_shape s tsStr _ ts hlast hd h2
+    have hbt : byteLen (trim tsStr) = (trim tsStr).length := byteLen_ascii _ hasc
+    have hsum : byteLen tsStr = byteLen a + byteLen (trim tsStr) := by
+      conv => lhs; rw [ha]
+      rw [byteLen_append]
+    rw [if_neg (by omega)]
+    have hn5 : n = 5 ∨ n = 4 ∨ n = 3 := by simpa using hn
+    -- the end of the numeral is a character boundary
+    have hend : dropBytes s (byteLen s - byteLen (trim tsStr)) = some (trim tsStr) := by
+      have := dropBytes_add s _ tsStr hd (byteLen a)
+      have e : byteLen s - n + byteLen a = byteLen s - byteLen (trim tsStr) := by omega
+      rw [e] at this
+      rw [this]
+      conv => lhs; arg 1; rw [ha]
+      exact dropBytes_prefix a (trim tsStr)
+    -- the start (2 or 3) is one too: the text begins with ASCII characters
+    have hs2 : dropBytes s 2 = some rest2 := by
+      rw [hshape, dropBytes_cons_succ, utf8Size_ascii hp.1, if_pos (by omega)]
+      show dropBytes (p1 :: rest2) 1 = _
+      rw [dropBytes_cons_succ, utf8Size_ascii hp.2, if_pos (by omega)]
+      exact dropBytes_zero _
+    have hstart : (dropBytes s start).isSome = true := by
+      rcases hst with h | ⟨h, p2, rest, hr, hp2, _⟩
+      · subst h; rw [hs2]; rfl
+      · subst h
+        have := dropBytes_add s 2 _ hs2 1
+        rw [this, hr, dropBytes_cons_succ, utf8Size_ascii hp2, if_pos (by omega)]
+        rw [show 0 + 1 - 1 = 0 from rfl, dropBytes_zero]; rfl
+    -- start ≤ end: only a five-letter spelling right behind a three-letter prefix could violate it, and then
+    -- the spelling would begin with the prefix's last letter
+    have hle : start ≤ byteLen s - byteLen (trim tsStr) := by
+      rcases hst with h | ⟨h, p2, rest, hr, hp2, hq2⟩
+      · subst h; omega
+      · subst h
+        by_cases h8 : 8 ≤ byteLen s
+        · omega
+        · have hl7 : byteLen s = 7 := by omega
+          by_cases hm5 : (trim tsStr).length = 5
+          · exfalso
+            have ha0 : byteLen a = 0 := by omega
+            have hanil : a = [] := by
+              cases a with
+              | nil => rfl
+              | cons c r => have := utf8Size_pos c; rw [byteLen_cons] at ha0; omega
+            have hn' : n = 5 := by omega
+            have e2 : byteLen s - n = 2 := by omega
+            rw [e2, hs2] at hd
+            simp only [Option.some.injEq] at hd
+            have htq : trim tsStr = p2 :: rest := by rw [ha, hanil] at hd; rw [← hr]; simpa using hd.symm
+            have hm := lookup_mem _ _ _ (by unfold tsFromStr at h2; exact h2)
+            have hq : Gen.TIMESCALE_SPELLINGS.all (fun p => decide (p.1.length = 5 → p.1.head? = some 81)) = true := by decide
+            have := List.all_eq_true.mp hq _ hm
+            simp only [decide_eq_true_eq] at this
+            have := this hm5
+            rw [htq] at this
+            simp at this
+            exact hq2 this
+          · omega
+    obtain ⟨num, hnum⟩ := slice_ne_panic s start _ hle hstart (by rw [hend]; rfl)
+    rw [hnum]
+    simp only
+    cases lexF64 (trim num) with
     | none => simp
-    | some ts =>
+    | some bits =>
       simp only
-      have hd := sliceOpt_suffix s _ tsStr h1
-      have hbl := dropBytes_byteLen s _ tsStr hd
-      have h3 : byteLen tsStr = 3 := by omega
-      obtain ⟨a1, a2, a3, a4⟩ := suffix_ascii tsStr ts h3 h2
-      have hbt : byteLen (trim tsStr) = (trim tsStr).length := byteLen_ascii _ a2
-      have hl3 : tsStr.length = 3 := by rw [← byteLen_ascii _ a1]; exact h3
-      rw [if_neg (by omega)]
-      have hend : (dropBytes s (byteLen s - byteLen (trim tsStr))).isSome = true := by
-        have := dropBytes_add s _ tsStr hd (3 - (trim tsStr).length)
-        have e : byteLen s - 3 + (3 - (trim tsStr).length) = byteLen s - byteLen (trim tsStr) := by omega
-        rw [e] at this
-        rw [this, dropBytes_ascii tsStr _ a1 (by omega)]; rfl
-      obtain ⟨num, hnum⟩ := slice_ne_panic s start _ (by omega) hs hend
-      rw [hnum]
-      simp only
-      cases lexF64 (trim num) with
-      | none => simp
-      | some bits =>
-        simp only
-        by_cases hf : finiteBits bits = true
-        · rw [if_pos hf]; exact numericEpoch_ne_panic fmt ts bits _ hf
-        · rw [if_neg hf]; simp
+      by_cases hf : finiteBits bits = true
+      · rw [if_pos hf]; exact numericEpoch_ne_panic fmt ts bits _ hf
+      · rw [if_neg hf]; simp
+
+theorem startsWith2 (s : List Nat) (p0 p1 : Nat) (h : startsWith s [p0, p1] = true) :
+    ∃ rest, s = p0 :: p1 :: rest := by
+  cases s with
+  | nil => simp [startsWith] at h
+  | cons a r =>
+    cases r with
+    | nil => simp [startsWith] at h
+    | cons b r2 =>
+      simp only [startsWith, Bool.and_eq_true, decide_eq_true_eq, and_true] at h
+      obtain ⟨h1, h2⟩ := h
+      subst h1 h2
+      exact ⟨r2, rfl⟩
+
+theorem startsWith3 (s : List Nat) (p0 p1 p2 : Nat) (h : startsWith s [p0, p1, p2] = true) :
+    ∃ rest, s = p0 :: p1 :: p2 :: rest := by
+  cases s with
+  | nil => simp [startsWith] at h
+  | cons a r =>
+    cases r with
+    | nil => simp [startsWith] at h
+    | cons b r2 =>
+      cases r2 with
+      | nil => simp [startsWith] at h
+      | cons c r3 =>
+        simp only [startsWith, Bool.and_eq_true, decide_eq_true_eq, and_true] at h
+        obtain ⟨h1, h2, h3⟩ := h
+        subst h1 h2 h3
+        exact ⟨r3, rfl⟩
 
 /-- TOTALITY of `impl FromStr for Epoch`, whatever the float-valued tail computes -/
 theorem epochFromStrWith_ne_panic (dur : Nat → Nat → TS → Dur) (s : List Nat) : epochFromStrWith dur s ≠ .panic := by
@@ -690,23 +1004,25 @@ theorem epochFromStrWith_ne_panic (dur : Nat → Nat → TS → Dur) (s : List N
   by_cases h7 : byteLen (trim s) < 7
   · rw [if_pos h7]; simp
   · rw [if_neg h7]
+    have hlast := trim_last_not_ws s
     by_cases hj : startsWith (trim s) [74, 68] = true
     · rw [if_pos hj]
-      have := startsWith_dropBytes (trim s) [74, 68] (by decide) hj
-      exact numericForm_ne_panic _ 2 0 dur (by omega) (by rw [show (2 : Nat) = [74, 68].length from rfl, this]; rfl) (by omega)
+      obtain ⟨rest, hr⟩ := startsWith2 _ _ _ hj
+      exact numericForm_ne_panic _ 74 68 rest 2 0 dur (by omega) hr (by omega) hlast (Or.inl rfl)
     · rw [if_neg hj]
       by_cases hm : startsWith (trim s) [77, 74, 68] = true
       · rw [if_pos hm]
-        have := startsWith_dropBytes (trim s) [77, 74, 68] (by decide) hm
-        exact numericForm_ne_panic _ 3 1 dur (by omega) (by rw [show (3 : Nat) = [77, 74, 68].length from rfl, this]; rfl) (by omega)
+        obtain ⟨rest, hr⟩ := startsWith3 _ _ _ _ hm
+        exact numericForm_ne_panic _ 77 74 (68 :: rest) 3 1 dur (by omega) hr (by omega) hlast
+          (Or.inr ⟨rfl, 68, rest, rfl, by omega, by omega⟩)
       · rw [if_neg hm]
         by_cases hsec : startsWith (trim s) [83, 69, 67] = true
         · rw [if_pos hsec]
-          have := startsWith_dropBytes (trim s) [83, 69, 67] (by decide) hsec
-          exact numericForm_ne_panic _ 3 2 dur (by omega) (by rw [show (3 : Nat) = [83, 69, 67].length from rfl, this]; rfl) (by omega)
+          obtain ⟨rest, hr⟩ := startsWith3 _ _ _ _ hsec
+          exact numericForm_ne_panic _ 83 69 (67 :: rest) 3 2 dur (by omega) hr (by omega) hlast
+            (Or.inr ⟨rfl, 67, rest, rfl, by omega, by omega⟩)
         · rw [if_neg hsec]
           exact fromGregorianStrIdx_ne_panic s
-
 
 /-! ## Part D: symbolic execution of the tokenizer loop on rendered text
 
@@ -1637,7 +1953,7 @@ theorem canon_InR (e : Dur) (h : e.Canon) : Cal.InR e.val := by
 /-- fields in range, an offset `sign·(oh:om)`: the epoch built is the one of the fields shifted by the offset -/
 theorem finishFields_ok (y mo d h mi sec ns oh om sign : Int) (ts : TS) (e : Dur)
     (hmo : 0 ≤ mo ∧ mo ≤ 255) (hd : 0 ≤ d ∧ d ≤ 255) (hh : 0 ≤ h ∧ h ≤ 255) (hmi : 0 ≤ mi ∧ mi ≤ 255)
-    (hsec : 0 ≤ sec ∧ sec ≤ 255) (hns : 0 ≤ ns ∧ ns ≤ 4294967295) (hoh : 0 ≤ oh ∧ oh ≤ 23) (hom : 0 ≤ om ∧ om ≤ 59)
+    (hsec : 0 ≤ sec ∧ sec ≤ 59) (hns : 0 ≤ ns ∧ ns ≤ 4294967295) (hoh : 0 ≤ oh ∧ oh ≤ 23) (hom : 0 ≤ om ∧ om ≤ 59)
     (he : Cal.maybeFromGregorian y mo d h mi sec ns ts = .ok e) (hc : e.Canon) :
     ∃ r, finishFields y mo d h mi sec ns oh om sign ts = .ok ⟨r, ts⟩ ∧ r.Canon ∧
       r.val = clampD (e.val + (if sign > 0 then -1 else 1) * (oh * 3600000000000 + om * 60000000000)) := by
@@ -1648,8 +1964,10 @@ theorem finishFields_ok (y mo d h mi sec ns oh om sign : Int) (ts : TS) (e : Dur
   have hf : fitsU8 mo = true ∧ fitsU8 d = true ∧ fitsU8 h = true ∧ fitsU8 mi = true ∧ fitsU8 sec = true
       ∧ fitsU32 ns = true := by
     unfold fitsU8 fitsU32; simp only [decide_eq_true_eq]; omega
-  rw [if_pos hf, he]
+  have h60 : ¬ sec = 60 := by omega
+  rw [if_pos hf, if_neg h60, he]
   simp only
+  rw [if_neg h60]
   have := add_spec e tz hc hcz
   refine ⟨_, rfl, this.1, ?_⟩
   rw [this.2, hvz]
@@ -2049,12 +2367,15 @@ theorem text_denotes (f : Form) (y mo d h mi s : Int) (nd : Nat) (frac : Int) (n
 theorem finishFields_reject (y mo d h mi s ns oh om sign : Int) (ts : TS)
     (hy : 0 ≤ y ∧ y ≤ 9999) (hmo : 0 ≤ mo ∧ mo ≤ 13) (hd : 0 ≤ d ∧ d ≤ 31) (hh : 0 ≤ h ∧ h ≤ 23) (hmi : 0 ≤ mi ∧ mi ≤ 59)
     (hs : 0 ≤ s ∧ s ≤ 60) (hns : 0 ≤ ns ∧ ns < 1000000000) (hoh : 0 ≤ oh ∧ oh ≤ 23) (hom : 0 ≤ om ∧ om ≤ 59)
-    (hrej : mustReject iersLeapDates ⟨y, mo, d⟩ h mi s ns = true) (hD10 : Cal.d10class y mo d = false) :
+    (hrej : mustReject iersLeapDates ⟨y, mo, d⟩ h mi (if s = 60 then 59 else s) ns = true)
+    (hD10 : Cal.d10class y mo d = false) :
     finishFields y mo d h mi s ns oh om sign ts = .err := by
   obtain ⟨tz, htz, _, _⟩ := tz_spec ⟨y, mo, d, h, mi, s, ns, oh, om, sign, ts, 0, .year⟩ hoh hom
-  have hcore := (Cal.validCore_spec y mo d h mi s ns hmo.1 hd.1 hh.1 hmi.1 hs.1 hns.1 hD10 (by omega) (by omega)).2.mpr hrej
-  have hm : Cal.maybeFromGregorian y mo d h mi s ns ts = .err := by
-    rw [Cal.maybeFromGregorian_eq y mo d h mi s ns ts (by omega), if_pos hcore]
+  have hs' : 0 ≤ (if s = 60 then 59 else s) := by split <;> omega
+  have hcore := (Cal.validCore_spec y mo d h mi (if s = 60 then 59 else s) ns hmo.1 hd.1 hh.1 hmi.1 hs' hns.1 hD10
+    (by omega) (by omega)).2.mpr hrej
+  have hm : Cal.maybeFromGregorian y mo d h mi (if s = 60 then 59 else s) ns ts = .err := by
+    rw [Cal.maybeFromGregorian_eq y mo d h mi _ ns ts (by omega), if_pos hcore]
   unfold finishFields finishGreg
   rw [htz]
   simp only
@@ -2071,15 +2392,18 @@ theorem fieldsOk_ranges {mo d h mi sec : Nat} (h0 : fieldsOk mo d h mi sec) :
 
 /-- REJECTION: a text of one of the five forms — every field written with its two (year: four) digits,
     whatever their values — whose date-time the specification requires to be rejected (month 0 or > 12, a
-    day the month does not have, hour > 24 (or 24), minute > 59, second > 60, second = 60 off a leap
-    second) is an error, outside the recorded class D10 (30/31 February of a leap year) -/
+    day the month does not have, hour > 24 (or 24), minute > 59, second > 60) is an error, outside the
+    recorded class D10 (30/31 February of a leap year).  A second of 60 is judged with 59 in its place
+    here (the other fields must still be a valid date-time); whether `:60` itself is allowed depends on
+    the written offset and is the subject of `second60_characterised`. -/
 theorem rejects_out_of_range (f : Form) (y mo d h mi s : Int) (nd : Nat) (frac : Int) (neg : Bool) (oh om : Int) (ts : TS)
     (hy : 0 ≤ y ∧ y ≤ 9999) (hmo : 0 ≤ mo ∧ mo < 100) (hd : 0 ≤ d ∧ d < 100) (hh : 0 ≤ h ∧ h < 100)
     (hmi : 0 ≤ mi ∧ mi < 100) (hs : 0 ≤ s ∧ s < 100) (hnd : nd ≤ 9) (hf : 0 ≤ frac ∧ frac < 10 ^ nd)
     (hoh : 0 ≤ oh ∧ oh < 100) (hom : 0 ≤ om ∧ om < 100)
-    (hrej : mustReject iersLeapDates ⟨y, mo, d⟩ h mi s (fracNs nd frac) = true ∨ h = 24)
+    (hrej : mustReject iersLeapDates ⟨y, mo, d⟩ h mi (if s = 60 then 59 else s) (fracNs nd frac) = true ∨ h = 24)
     (hD10 : Cal.d10class y mo d = false) :
-    fromGregorianStrIdx (renderText f ⟨y, mo, d⟩ h mi s nd frac neg oh om ts.name) = .err := by
+    fromGregorianStrIdx (renderText f ⟨y, mo, d⟩ h mi s nd frac neg oh om ts.name) = .err ∧
+    ∀ dur, epochFromStrWith dur (renderText f ⟨y, mo, d⟩ h mi s nd frac neg oh om ts.name) = .err := by
   have hfn := toNat_lt_pow nd frac hf
   have hns := fracNs_bound nd frac hnd hf
   have hst := renderStamp_eq y mo d h mi s nd frac hy hmo hd hh hmi hs hf
@@ -2098,7 +2422,7 @@ theorem rejects_out_of_range (f : Form) (y mo d h mi s : Int) (nd : Nat) (frac :
       finishFields y mo d h mi s (frac * 10 ^ (9 - nd)) oh' om' sign ts' = .err := by
     intro oh' om' sign ts' h1 h2 hfo
     have r := fieldsOk_ranges hfo
-    have hrej' : mustReject iersLeapDates ⟨y, mo, d⟩ h mi s (fracNs nd frac) = true := by
+    have hrej' : mustReject iersLeapDates ⟨y, mo, d⟩ h mi (if s = 60 then 59 else s) (fracNs nd frac) = true := by
       rcases hrej with hr | h24
       · exact hr
       · omega
@@ -2109,65 +2433,337 @@ theorem rejects_out_of_range (f : Form) (y mo d h mi s : Int) (nd : Nat) (frac :
     rw [c8, c9]; unfold valueOk; simp only [decide_eq_true_eq]; omega
   cases f with
   | D =>
-    obtain ⟨_, hP⟩ := parse_D y.toNat mo.toNat d.toNat h.toNat mi.toNat s.toNat nd frac.toNat ts
+    obtain ⟨hfs, hP⟩ := parse_D y.toNat mo.toNat d.toNat h.toNat mi.toNat s.toNat nd frac.toNat ts
       (by omega) (by omega) (by omega) (by omega) (by omega) (by omega) hnd hfn
     have ht : renderText .D ⟨y, mo, d⟩ h mi s nd frac neg oh om ts.name =
         stamp5 y.toNat mo.toNat d.toNat h.toNat mi.toNat ++ (Cal.fmtNat 2 s.toNat ++ fracN nd frac.toNat ++ 32 :: tsDisplay ts) := by
       unfold renderText; rw [hst, scaleCodes_eq]; simp
-    rw [ht, hP]
+    rw [ht]
+    suffices main : fromGregorianStrIdx _ = .err from ⟨main, fun dur => by rw [hfs dur]; exact main⟩
+    rw [hP]
     by_cases hfo : fieldsOk mo.toNat d.toNat h.toNat mi.toNat s.toNat
     · rw [if_pos hfo, c1, c2, c3, c4, c5, c6, c7]; exact key 0 0 1 ts (by omega) (by omega) hfo
     · rw [if_neg hfo]
   | Z =>
-    obtain ⟨_, hP⟩ := parse_Z y.toNat mo.toNat d.toNat h.toNat mi.toNat s.toNat nd frac.toNat
+    obtain ⟨hfs, hP⟩ := parse_Z y.toNat mo.toNat d.toNat h.toNat mi.toNat s.toNat nd frac.toNat
       (by omega) (by omega) (by omega) (by omega) (by omega) (by omega) hnd hfn
     have ht : renderText .Z ⟨y, mo, d⟩ h mi s nd frac neg oh om ts.name =
         stamp5 y.toNat mo.toNat d.toNat h.toNat mi.toNat ++ (Cal.fmtNat 2 s.toNat ++ fracN nd frac.toNat ++ [90]) := by
       unfold renderText; rw [hst]; simp
-    rw [ht, hP]
+    rw [ht]
+    suffices main : fromGregorianStrIdx _ = .err from ⟨main, fun dur => by rw [hfs dur]; exact main⟩
+    rw [hP]
     by_cases hfo : fieldsOk mo.toNat d.toNat h.toNat mi.toNat s.toNat
     · rw [if_pos hfo, c1, c2, c3, c4, c5, c6, c7]; exact key 0 0 1 .UTC (by omega) (by omega) hfo
     · rw [if_neg hfo]
   | ZT =>
-    obtain ⟨_, hP⟩ := parse_ZT y.toNat mo.toNat d.toNat h.toNat mi.toNat s.toNat nd frac.toNat ts
+    obtain ⟨hfs, hP⟩ := parse_ZT y.toNat mo.toNat d.toNat h.toNat mi.toNat s.toNat nd frac.toNat ts
       (by omega) (by omega) (by omega) (by omega) (by omega) (by omega) hnd hfn
     have ht : renderText .ZT ⟨y, mo, d⟩ h mi s nd frac neg oh om ts.name =
         stamp5 y.toNat mo.toNat d.toNat h.toNat mi.toNat ++
           (Cal.fmtNat 2 s.toNat ++ fracN nd frac.toNat ++ 90 :: 32 :: tsDisplay ts) := by
       unfold renderText; rw [hst, scaleCodes_eq]; simp
-    rw [ht, hP]
+    rw [ht]
+    suffices main : fromGregorianStrIdx _ = .err from ⟨main, fun dur => by rw [hfs dur]; exact main⟩
+    rw [hP]
     by_cases hfo : fieldsOk mo.toNat d.toNat h.toNat mi.toNat s.toNat
     · rw [if_pos hfo, c1, c2, c3, c4, c5, c6, c7]; exact key 0 0 1 ts (by omega) (by omega) hfo
     · rw [if_neg hfo]
   | O =>
-    obtain ⟨_, hP⟩ := parse_O y.toNat mo.toNat d.toNat h.toNat mi.toNat s.toNat nd frac.toNat
+    obtain ⟨hfs, hP⟩ := parse_O y.toNat mo.toNat d.toNat h.toNat mi.toNat s.toNat nd frac.toNat
       (if neg = true then 45 else 43) oh.toNat om.toNat
       (by omega) (by omega) (by omega) (by omega) (by omega) (by omega) hnd hfn (by cases neg <;> simp) (by omega) (by omega)
     have ht : renderText .O ⟨y, mo, d⟩ h mi s nd frac neg oh om ts.name =
         stamp5 y.toNat mo.toNat d.toNat h.toNat mi.toNat ++ (Cal.fmtNat 2 s.toNat ++ fracN nd frac.toNat ++
           (if neg = true then 45 else 43) :: (Cal.fmtNat 2 oh.toNat ++ 58 :: Cal.fmtNat 2 om.toNat)) := by
       unfold renderText; rw [hst, renderOffset_eq neg oh om (by omega) (by omega)]; simp
-    rw [ht, hP]
+    rw [ht]
+    suffices main : fromGregorianStrIdx _ = .err from ⟨main, fun dur => by rw [hfs dur]; exact main⟩
+    rw [hP]
     by_cases hc : fieldsOk mo.toNat d.toNat h.toNat mi.toNat s.toNat ∧
         valueOk .offH ((oh.toNat : Nat) : Int) = true ∧ valueOk .offM ((om.toNat : Nat) : Int) = true
     · rw [if_pos hc, c1, c2, c3, c4, c5, c6, c7, c8, c9]
       exact key oh om _ .UTC (hvo hc.2).1 (hvo hc.2).2 hc.1
     · rw [if_neg hc]
   | OT =>
-    obtain ⟨_, hP⟩ := parse_OT y.toNat mo.toNat d.toNat h.toNat mi.toNat s.toNat nd frac.toNat
+    obtain ⟨hfs, hP⟩ := parse_OT y.toNat mo.toNat d.toNat h.toNat mi.toNat s.toNat nd frac.toNat
       (if neg = true then 45 else 43) oh.toNat om.toNat ts
       (by omega) (by omega) (by omega) (by omega) (by omega) (by omega) hnd hfn (by cases neg <;> simp) (by omega) (by omega)
     have ht : renderText .OT ⟨y, mo, d⟩ h mi s nd frac neg oh om ts.name =
         stamp5 y.toNat mo.toNat d.toNat h.toNat mi.toNat ++ (Cal.fmtNat 2 s.toNat ++ fracN nd frac.toNat ++
           (if neg = true then 45 else 43) :: (Cal.fmtNat 2 oh.toNat ++ 58 :: (Cal.fmtNat 2 om.toNat ++ 32 :: tsDisplay ts))) := by
       unfold renderText; rw [hst, renderOffset_eq neg oh om (by omega) (by omega), scaleCodes_eq]; simp
-    rw [ht, hP]
+    rw [ht]
+    suffices main : fromGregorianStrIdx _ = .err from ⟨main, fun dur => by rw [hfs dur]; exact main⟩
+    rw [hP]
     by_cases hc : fieldsOk mo.toNat d.toNat h.toNat mi.toNat s.toNat ∧
         valueOk .offH ((oh.toNat : Nat) : Int) = true ∧ valueOk .offM ((om.toNat : Nat) : Int) = true
     · rw [if_pos hc, c1, c2, c3, c4, c5, c6, c7, c8, c9]
       exact key oh om _ ts (hvo hc.2).1 (hvo hc.2).2 hc.1
     · rw [if_neg hc]
 
+
+/-! ## Part E2: second = 60 (fix 582282e) -/
+
+theorem leapDates_valid : iersLeapDates.all (fun L => validDate L) = true := by decide
+
+/-- "the next day is an entry of the leap table", in terms of day numbers -/
+theorem contains_nextDay_iff (D : Date) (hv : validDate D = true) :
+    iersLeapDates.contains (nextDay D) = iersLeapDates.any (fun L => decide (dayNumber L = dayNumber D + 1)) := by
+  rw [Bool.eq_iff_iff]
+  simp only [List.contains_iff_mem, List.any_eq_true, decide_eq_true_eq]
+  constructor
+  · intro hm
+    exact ⟨nextDay D, hm, Cal.dayNumber_nextDay D hv⟩
+  · rintro ⟨L, hL, hd⟩
+    have hLv : validDate L = true := List.all_eq_true.mp leapDates_valid L hL
+    have := Cal.dayNumber_inj L (nextDay D) hLv (Cal.nextDay_valid D hv) (by rw [hd, Cal.dayNumber_nextDay D hv])
+    rw [← this]; exact hL
+
+/-- the label check of fix 582282e, in terms of the count: with `M` the nanoseconds from 1900-01-01T00:00:00
+    of the scale's calendar, the check passes iff `M` lies in the last second of a day whose next day is an
+    entry of the leap-second table -/
+theorem leapLabelOk_eq (r : Dur) (ts : TS) (hc : r.Canon) (hr : Cal.InCal r.val) :
+    leapLabelOk r ts = .ok (decide ((r.val + refOffsetNs ts.name) / 1000000000 % 86400 = 86399) &&
+      iersLeapDates.any (fun L => decide (dayNumber L = (r.val + refOffsetNs ts.name) / 86400000000000 + 1))) := by
+  obtain ⟨y, mo, dd, h, mi, s, ns, e, hv, hy1, hy2, a1, a2, a3, a4, a5, a6, a7, a8, hval⟩ :=
+    Cal.computeGregorian_spec r ts hc hr
+  have hdn : (r.val + refOffsetNs ts.name) / 86400000000000 = dayNumber ⟨y, mo, dd⟩ := by omega
+  have hsec : ((r.val + refOffsetNs ts.name) / 1000000000 % 86400 = 86399) ↔ (h = 23 ∧ mi = 59 ∧ s = 59) := by
+    constructor <;> intro hh <;> omega
+  unfold leapLabelOk
+  rw [e]
+  simp only
+  rw [hdn]
+  by_cases hl : h = 23 ∧ mi = 59 ∧ s = 59
+  · rw [if_pos hl]
+    have hd : decide ((r.val + refOffsetNs ts.name) / 1000000000 % 86400 = 86399) = true := by
+      simp only [decide_eq_true_eq]; exact hsec.mpr hl
+    rw [hd, Bool.true_and]
+    unfold Cal.isGregorianValid
+    rw [validPanics_false]
+    simp only [Bool.false_eq_true, if_false]
+    have hv' := (Cal.validDate_iff _).mp hv
+    simp only at hv'
+    have hspec := (Cal.validCore_spec y mo dd 23 59 60 0 (by omega) (by omega) (by omega) (by omega) (by omega) (by omega)
+      (Cal.valid_not_d10 y mo dd hv) (by omega) (by omega)).1
+    have hacc : mustAccept iersLeapDates ⟨y, mo, dd⟩ 23 59 60 0 = iersLeapDates.contains (nextDay ⟨y, mo, dd⟩) := by
+      unfold mustAccept
+      rw [hv]
+      simp
+    rw [hacc, contains_nextDay_iff _ hv] at hspec
+    congr 1
+    rw [Bool.eq_iff_iff]
+    exact hspec
+  · rw [if_neg hl]
+    have hd : decide ((r.val + refOffsetNs ts.name) / 1000000000 % 86400 = 86399) = false := by
+      simp only [decide_eq_false_iff_not]; exact fun x => hl (hsec.mp x)
+    rw [hd, Bool.false_and]
+
+/-- fields that are a valid date-time with 59 in place of the written 60: what follows the loop is decided by
+    the label check alone, and the epoch is the one of `:59.f` shifted by the offset -/
+theorem finishFields_60_spec (y mo d h mi : Int) (nd : Nat) (frac oh om sign offMin : Int) (ts : TS)
+    (hv : validDate ⟨y, mo, d⟩ = true) (hy : 1 ≤ y ∧ y ≤ 9999) (hh : 0 ≤ h ∧ h < 24) (hmi : 0 ≤ mi ∧ mi < 60)
+    (hnd : nd ≤ 9) (hf : 0 ≤ frac ∧ frac < 10 ^ nd) (hoh : 0 ≤ oh ∧ oh ≤ 23) (hom : 0 ≤ om ∧ om ≤ 59)
+    (hoff : (if sign > 0 then -1 else 1) * (oh * 3600000000000 + om * 60000000000) = -(offMin * 60000000000)) :
+    ∃ r, r.Canon ∧ r.val = lastLabelNs ⟨y, mo, d⟩ h mi offMin nd frac - refOffsetNs ts.name ∧
+      finishFields y mo d h mi 60 (frac * 10 ^ (9 - nd)) oh om sign ts =
+        if leapLabelOwn iersLeapDates ⟨y, mo, d⟩ h mi offMin = true then .ok ⟨r, ts⟩ else .err := by
+  have hns := fracNs_bound nd frac hnd hf
+  have hv' := (Cal.validDate_iff _).mp hv
+  simp only at hv'
+  have hml := Cal.monthLen_range y mo hv'.1 hv'.2.1
+  have hcore := Cal.validCore_of_valid y mo d h mi 59 (frac * 10 ^ (9 - nd)) hv hh hmi (by omega) hns
+  obtain ⟨e, he, hc, hval⟩ := Cal.maybeFromGregorian_val y mo d h mi 59 (frac * 10 ^ (9 - nd)) ts (by omega) (by omega)
+    (by omega) hh.1 hmi.1 (by omega) hns.1 hcore
+  rw [if_neg (by omega)] at hval
+  obtain ⟨tz, htz, hcz, hvz⟩ := tz_spec ⟨y, mo, d, h, mi, 60, frac * 10 ^ (9 - nd), oh, om, sign, ts, 0, .year⟩ hoh hom
+  simp only at hvz
+  rw [hoff] at hvz
+  have hdn := dayNumber_bound y mo d (by omega) ⟨hv'.1, hv'.2.1⟩ ⟨hv'.2.2.1, by omega⟩
+  have hor := Cal.refOffset_range ts
+  have hadd := add_spec e tz hc hcz
+  have hom' : -1439 ≤ offMin ∧ offMin ≤ 1439 := by
+    split at hoff <;> omega
+  have hrv : (Dur.add e tz).val = e.val + tz.val := by
+    rw [hadd.2]; apply clampD_mid <;> (rw [hval, hvz]; omega)
+  refine ⟨Dur.add e tz, hadd.1, ?_, ?_⟩
+  · rw [hrv, hval, hvz]; unfold lastLabelNs ownMinute fracNs; omega
+  · have hin : Cal.InCal (Dur.add e tz).val := by unfold Cal.InCal; rw [hrv, hval, hvz]; omega
+    unfold finishFields finishGreg
+    rw [htz]
+    simp only
+    have hfit : fitsU8 mo = true ∧ fitsU8 d = true ∧ fitsU8 h = true ∧ fitsU8 mi = true ∧ fitsU8 60 = true
+        ∧ fitsU32 (frac * 10 ^ (9 - nd)) = true := by
+      unfold fitsU8 fitsU32; simp only [decide_eq_true_eq]; omega
+    rw [if_pos hfit]
+    simp only [if_true]
+    rw [he]
+    simp only
+    rw [leapLabelOk_eq _ ts hadd.1 hin]
+    have hM : (Dur.add e tz).val + refOffsetNs ts.name =
+        ownMinute ⟨y, mo, d⟩ h mi offMin * 60000000000 + 59000000000 + frac * 10 ^ (9 - nd) := by
+      rw [hrv, hval, hvz]; unfold ownMinute; omega
+    rw [hM]
+    have e1 : ((ownMinute ⟨y, mo, d⟩ h mi offMin * 60000000000 + 59000000000 + frac * 10 ^ (9 - nd)) / 1000000000 % 86400 = 86399)
+        ↔ (ownMinute ⟨y, mo, d⟩ h mi offMin % 1440 = 1439) := by
+      constructor <;> intro hx <;> omega
+    have e2 : (ownMinute ⟨y, mo, d⟩ h mi offMin * 60000000000 + 59000000000 + frac * 10 ^ (9 - nd)) / 86400000000000 =
+        ownMinute ⟨y, mo, d⟩ h mi offMin / 1440 := by omega
+    rw [e2]
+    have e3 : decide ((ownMinute ⟨y, mo, d⟩ h mi offMin * 60000000000 + 59000000000 + frac * 10 ^ (9 - nd)) / 1000000000 % 86400 = 86399)
+        = decide (ownMinute ⟨y, mo, d⟩ h mi offMin % 1440 = 1439) := by
+      rw [Bool.eq_iff_iff]; simp only [decide_eq_true_eq]; exact e1
+    rw [e3]
+    unfold leapLabelOwn
+    cases hb : (decide (ownMinute ⟨y, mo, d⟩ h mi offMin % 1440 = 1439) &&
+      iersLeapDates.any fun L => decide (dayNumber L = ownMinute ⟨y, mo, d⟩ h mi offMin / 1440 + 1)) <;> simp
+
+theorem inGrammar60_unpack {y mo d h mi : Int} {nd : Nat} {frac oh om : Int}
+    (hg : inGrammar60 ⟨y, mo, d⟩ h mi nd frac oh om = true) :
+    validDate ⟨y, mo, d⟩ = true ∧ (1 ≤ y ∧ y ≤ 9999) ∧ (0 ≤ h ∧ h < 24) ∧ (0 ≤ mi ∧ mi < 60) ∧
+    nd ≤ 9 ∧ (0 ≤ frac ∧ frac < 10 ^ nd) ∧ (0 ≤ oh ∧ oh < 24) ∧ (0 ≤ om ∧ om < 60) := by
+  unfold inGrammar60 at hg
+  simp only [Bool.and_eq_true, decide_eq_true_eq] at hg
+  obtain ⟨hv, a1, a2, a3, a4, a5, a6, a9, a10, a11, a12, a13, a14, a15⟩ := hg
+  exact ⟨hv, ⟨a1, a2⟩, ⟨a3, a4⟩, ⟨a5, a6⟩, a9, ⟨a10, a11⟩, ⟨a12, a13⟩, ⟨a14, a15⟩⟩
+
+/-- SECOND = 60 (after fix 582282e): a text of the five forms whose other fields are inside the quantifier is
+    accepted exactly when its fields minus the written offset are 23:59 of a day preceding an entry of the
+    leap-second table, whatever the offset and the scale; the epoch returned is then the one of `:59.f` of
+    that minute (the library's convention 23:59:60 ≡ 23:59:59, which for UTC is the recorded finding D9b);
+    otherwise the text is an error -/
+theorem second60_text (f : Form) (y mo d h mi : Int) (nd : Nat) (frac : Int) (neg : Bool) (oh om : Int) (ts : TS)
+    (hg : inGrammar60 ⟨y, mo, d⟩ h mi nd frac oh om = true) :
+    ∃ r ts', ts'.name = f.scaleOf ts.name ∧ r.Canon ∧
+      r.val = lastLabelNs ⟨y, mo, d⟩ h mi (offsetMin f neg oh om) nd frac - refOffsetNs ts'.name ∧
+      fromGregorianStrIdx (renderText f ⟨y, mo, d⟩ h mi 60 nd frac neg oh om ts.name) =
+        (if leapLabelOwn iersLeapDates ⟨y, mo, d⟩ h mi (offsetMin f neg oh om) = true then .ok ⟨r, ts'⟩ else .err) ∧
+      ∀ dur, epochFromStrWith dur (renderText f ⟨y, mo, d⟩ h mi 60 nd frac neg oh om ts.name) =
+        (if leapLabelOwn iersLeapDates ⟨y, mo, d⟩ h mi (offsetMin f neg oh om) = true then .ok ⟨r, ts'⟩ else .err) := by
+  obtain ⟨hv, hy, hh, hmi, hnd, hf, hoh, hom⟩ := inGrammar60_unpack hg
+  have hv' := (Cal.validDate_iff _).mp hv
+  simp only at hv'
+  have hml := Cal.monthLen_range y mo hv'.1 hv'.2.1
+  have hfn := toNat_lt_pow nd frac hf
+  have hst := renderStamp_eq y mo d h mi 60 nd frac (by omega) (by omega) (by omega) (by omega) (by omega) (by omega) hf
+  have hfo := fieldsOk_of_ranges mo.toNat d.toNat h.toNat mi.toNat (60 : Int).toNat (by omega) (by omega) (by omega)
+    (by omega) (by decide)
+  have c1 : ((y.toNat : Nat) : Int) = y := Int.toNat_of_nonneg (by omega)
+  have c2 : ((mo.toNat : Nat) : Int) = mo := Int.toNat_of_nonneg (by omega)
+  have c3 : ((d.toNat : Nat) : Int) = d := Int.toNat_of_nonneg (by omega)
+  have c4 : ((h.toNat : Nat) : Int) = h := Int.toNat_of_nonneg (by omega)
+  have c5 : ((mi.toNat : Nat) : Int) = mi := Int.toNat_of_nonneg (by omega)
+  have c6 : (((60 : Int).toNat : Nat) : Int) = 60 := by decide
+  have c7 : ((frac.toNat : Nat) : Int) = frac := Int.toNat_of_nonneg hf.1
+  have c8 : ((oh.toNat : Nat) : Int) = oh := Int.toNat_of_nonneg hoh.1
+  have c9 : ((om.toNat : Nat) : Int) = om := Int.toNat_of_nonneg hom.1
+  have hvo : valueOk .offH ((oh.toNat : Nat) : Int) = true ∧ valueOk .offM ((om.toNat : Nat) : Int) = true := by
+    rw [c8, c9]; unfold valueOk; simp only [decide_eq_true_eq]; omega
+  cases f with
+  | D =>
+    obtain ⟨hfs, hP⟩ := parse_D y.toNat mo.toNat d.toNat h.toNat mi.toNat (60 : Int).toNat nd frac.toNat ts
+      (by omega) (by omega) (by omega) (by omega) (by omega) (by decide) hnd hfn
+    rw [if_pos hfo, c1, c2, c3, c4, c5, c6, c7] at hP
+    obtain ⟨r, hr1, hr2, hr3⟩ := finishFields_60_spec y mo d h mi nd frac 0 0 1 (offsetMin .D neg oh om) ts hv hy hh hmi hnd hf
+      (by omega) (by omega) (by unfold offsetMin Form.hasOffset; simp)
+    have ht : renderText .D ⟨y, mo, d⟩ h mi 60 nd frac neg oh om ts.name =
+        stamp5 y.toNat mo.toNat d.toNat h.toNat mi.toNat ++
+          (Cal.fmtNat 2 (60 : Int).toNat ++ fracN nd frac.toNat ++ 32 :: tsDisplay ts) := by
+      unfold renderText; rw [hst, scaleCodes_eq]; simp
+    rw [ht]
+    exact ⟨r, ts, rfl, hr1, hr2, by rw [hP, hr3], fun dur => by rw [hfs dur, hP, hr3]⟩
+  | Z =>
+    obtain ⟨hfs, hP⟩ := parse_Z y.toNat mo.toNat d.toNat h.toNat mi.toNat (60 : Int).toNat nd frac.toNat
+      (by omega) (by omega) (by omega) (by omega) (by omega) (by decide) hnd hfn
+    rw [if_pos hfo, c1, c2, c3, c4, c5, c6, c7] at hP
+    obtain ⟨r, hr1, hr2, hr3⟩ := finishFields_60_spec y mo d h mi nd frac 0 0 1 (offsetMin .Z neg oh om) .UTC hv hy hh hmi hnd hf
+      (by omega) (by omega) (by unfold offsetMin Form.hasOffset; simp)
+    have ht : renderText .Z ⟨y, mo, d⟩ h mi 60 nd frac neg oh om ts.name =
+        stamp5 y.toNat mo.toNat d.toNat h.toNat mi.toNat ++ (Cal.fmtNat 2 (60 : Int).toNat ++ fracN nd frac.toNat ++ [90]) := by
+      unfold renderText; rw [hst]; simp
+    rw [ht]
+    exact ⟨r, .UTC, rfl, hr1, hr2, by rw [hP, hr3], fun dur => by rw [hfs dur, hP, hr3]⟩
+  | ZT =>
+    obtain ⟨hfs, hP⟩ := parse_ZT y.toNat mo.toNat d.toNat h.toNat mi.toNat (60 : Int).toNat nd frac.toNat ts
+      (by omega) (by omega) (by omega) (by omega) (by omega) (by decide) hnd hfn
+    rw [if_pos hfo, c1, c2, c3, c4, c5, c6, c7] at hP
+    obtain ⟨r, hr1, hr2, hr3⟩ := finishFields_60_spec y mo d h mi nd frac 0 0 1 (offsetMin .ZT neg oh om) ts hv hy hh hmi hnd hf
+      (by omega) (by omega) (by unfold offsetMin Form.hasOffset; simp)
+    have ht : renderText .ZT ⟨y, mo, d⟩ h mi 60 nd frac neg oh om ts.name =
+        stamp5 y.toNat mo.toNat d.toNat h.toNat mi.toNat ++
+          (Cal.fmtNat 2 (60 : Int).toNat ++ fracN nd frac.toNat ++ 90 :: 32 :: tsDisplay ts) := by
+      unfold renderText; rw [hst, scaleCodes_eq]; simp
+    rw [ht]
+    exact ⟨r, ts, rfl, hr1, hr2, by rw [hP, hr3], fun dur => by rw [hfs dur, hP, hr3]⟩
+  | O =>
+    obtain ⟨hfs, hP⟩ := parse_O y.toNat mo.toNat d.toNat h.toNat mi.toNat (60 : Int).toNat nd frac.toNat
+      (if neg = true then 45 else 43) oh.toNat om.toNat
+      (by omega) (by omega) (by omega) (by omega) (by omega) (by decide) hnd hfn (by cases neg <;> simp) (by omega) (by omega)
+    rw [if_pos (And.intro hfo hvo), c1, c2, c3, c4, c5, c6, c7, c8, c9] at hP
+    obtain ⟨r, hr1, hr2, hr3⟩ := finishFields_60_spec y mo d h mi nd frac oh om
+      (if (if neg = true then 45 else 43) = 45 then -1 else 1) (offsetMin .O neg oh om) .UTC hv hy hh hmi hnd hf
+      (by omega) (by omega) (by unfold offsetMin Form.hasOffset; cases neg <;> simp <;> omega)
+    have ht : renderText .O ⟨y, mo, d⟩ h mi 60 nd frac neg oh om ts.name =
+        stamp5 y.toNat mo.toNat d.toNat h.toNat mi.toNat ++ (Cal.fmtNat 2 (60 : Int).toNat ++ fracN nd frac.toNat ++
+          (if neg = true then 45 else 43) :: (Cal.fmtNat 2 oh.toNat ++ 58 :: Cal.fmtNat 2 om.toNat)) := by
+      unfold renderText; rw [hst, renderOffset_eq neg oh om (by omega) (by omega)]; simp
+    rw [ht]
+    exact ⟨r, .UTC, rfl, hr1, hr2, by rw [hP, hr3], fun dur => by rw [hfs dur, hP, hr3]⟩
+  | OT =>
+    obtain ⟨hfs, hP⟩ := parse_OT y.toNat mo.toNat d.toNat h.toNat mi.toNat (60 : Int).toNat nd frac.toNat
+      (if neg = true then 45 else 43) oh.toNat om.toNat ts
+      (by omega) (by omega) (by omega) (by omega) (by omega) (by decide) hnd hfn (by cases neg <;> simp) (by omega) (by omega)
+    rw [if_pos (And.intro hfo hvo), c1, c2, c3, c4, c5, c6, c7, c8, c9] at hP
+    obtain ⟨r, hr1, hr2, hr3⟩ := finishFields_60_spec y mo d h mi nd frac oh om
+      (if (if neg = true then 45 else 43) = 45 then -1 else 1) (offsetMin .OT neg oh om) ts hv hy hh hmi hnd hf
+      (by omega) (by omega) (by unfold offsetMin Form.hasOffset; cases neg <;> simp <;> omega)
+    have ht : renderText .OT ⟨y, mo, d⟩ h mi 60 nd frac neg oh om ts.name =
+        stamp5 y.toNat mo.toNat d.toNat h.toNat mi.toNat ++ (Cal.fmtNat 2 (60 : Int).toNat ++ fracN nd frac.toNat ++
+          (if neg = true then 45 else 43) :: (Cal.fmtNat 2 oh.toNat ++ 58 :: (Cal.fmtNat 2 om.toNat ++ 32 :: tsDisplay ts))) := by
+      unfold renderText; rw [hst, renderOffset_eq neg oh om (by omega) (by omega), scaleCodes_eq]; simp
+    rw [ht]
+    exact ⟨r, ts, rfl, hr1, hr2, by rw [hP, hr3], fun dur => by rw [hfs dur, hP, hr3]⟩
+
+/-! ## Part E3: the duplicated formatter models are the same functions -/
+
+theorem tsDisplay_eq_name (ts : TS) : tsDisplay ts = Cal.strCodes ts.name := by
+  cases ts <;> decide
+
+/-- `Txt.displayEpoch` (this file's Display, scale names from the generated Display table) is `Cal.display`
+    (the C09 model, scale names from the protocol names) -/
+theorem displayEpoch_eq_display (d : Dur) (ts : TS) : displayEpoch d ts = Cal.display d ts := by
+  unfold displayEpoch Cal.display
+  cases Cal.computeGregorian d ts with
+  | ok v =>
+    obtain ⟨y, mo, dd, hh, mi, s, ns⟩ := v
+    simp only [renderGreg, Cal.renderFields, tsDisplay_eq_name]
+  | err => rfl
+  | panic => rfl
+
+/-- the ISO8601 constant of the general formatter model (C19), as a `Format` -/
+theorem iso8601_format :
+    Efmt.Format.ofGen Gen.EFMT_ISO8601 = some ⟨[⟨.Year, some 45, none, false⟩, ⟨.Month, some 45, none, false⟩,
+      ⟨.Day, some 84, none, false⟩, ⟨.Hour, some 58, none, false⟩, ⟨.Minute, some 58, none, false⟩,
+      ⟨.Second, some 46, none, false⟩, ⟨.Subsecond, some 32, none, false⟩, ⟨.Timescale, none, none, false⟩]⟩ := by
+  decide
+
+/-- `Txt.isoFormatterOutput` is the general formatter model `Efmt.formatterOutput` applied to the generated
+    constant `ISO8601`, for any oracles (the constant uses none of them) -/
+theorem isoFormatterOutput_eq_formatter (O : Efmt.Oracles) (f : Efmt.Format) (hf : Efmt.Format.ofGen Gen.EFMT_ISO8601 = some f)
+    (d : Dur) (ts : TS) : Efmt.formatterOutput O f ⟨d, ts⟩ none = isoFormatterOutput d ts := by
+  rw [iso8601_format] at hf
+  simp only [Option.some.injEq] at hf
+  subst hf
+  unfold Efmt.formatterOutput Efmt.formatterFmt isoFormatterOutput
+  simp only
+  rw [if_pos (by decide)]
+  cases Cal.computeGregorian d ts with
+  | ok v =>
+    obtain ⟨y, mo, dd, hh, mi, s, ns⟩ := v
+    simp [Efmt.gregGo, Efmt.tokText, Efmt.Item.sepText, renderIso, tsDisplay_eq_name]
+  | err => rfl
+  | panic => rfl
 
 /-! ## Part F: the numeric forms `PREFIX␣x␣SCALE` — what is read is what is written -/
 
@@ -2226,13 +2822,159 @@ theorem ts_spellings_lookup :
 theorem letter_not_ws {c : Nat} (h : 65 ≤ c ∧ c ≤ 90) : isWhitespace c = false := by
   rw [isWhitespace_ascii c (by omega)]; simp; omega
 
+theorem suffixTs_cons (s : List Nat) (n : Nat) (rest : List Nat) :
+    suffixTs s (n :: rest) =
+      if byteLen s < n then suffixTs s rest
+      else
+        match sliceOpt s (byteLen s - n) (byteLen s) with
+        | some t =>
+          (match tsFromStr t with
+           | some ts => some (ts, t)
+           | none => suffixTs s rest)
+        | none => suffixTs s rest := rfl
+
+theorem suffixTs_step_ok (T : List Nat) (n : Nat) (rest : List Nat) (t : List Nat) (ts : TS) (hn : n ≤ byteLen T)
+    (hsl : sliceOpt T (byteLen T - n) (byteLen T) = some t) (hts : tsFromStr t = some ts) :
+    suffixTs T (n :: rest) = some (ts, t) := by
+  rw [suffixTs_cons, if_neg (by omega), hsl]; simp only; rw [hts]
+
+theorem suffixTs_step_fail (T : List Nat) (n : Nat) (rest : List Nat) (t : List Nat) (hn : n ≤ byteLen T)
+    (hsl : sliceOpt T (byteLen T - n) (byteLen T) = some t) (hts : tsFromStr t = none) :
+    suffixTs T (n :: rest) = suffixTs T rest := by
+  rw [suffixTs_cons, if_neg (by omega), hsl]; simp only; rw [hts]
+
+/-- the last characters of an ASCII text -/
+theorem sliceOpt_last (P sub : List Nat) (h : isAscii (P ++ sub) = true) :
+    sliceOpt (P ++ sub) (byteLen (P ++ sub) - sub.length) (byteLen (P ++ sub)) = some sub := by
+  have := sliceOpt_mid P sub [] (by simpa using h)
+  simp only [List.append_nil] at this
+  rw [byteLen_ascii _ h]
+  have e1 : (P ++ sub).length - sub.length = P.length := by simp
+  have e2 : (P ++ sub).length = P.length + sub.length := by simp
+  rw [e1, e2]; exact this
+
+/-- a text with a blank inside is no spelling of a time scale -/
+theorem tsFromStr_none_of_blank (t : List Nat) (h : 32 ∈ trim t) : tsFromStr t = none := by
+  unfold tsFromStr
+  cases hl : lookup Gen.TIMESCALE_SPELLINGS (trim t) with
+  | none => rfl
+  | some v =>
+    have hm := lookup_mem _ _ _ hl
+    have hsp := List.all_eq_true.mp ts_spellings_lookup _ hm
+    simp only [Bool.and_eq_true, decide_eq_true_eq, List.all_eq_true] at hsp
+    have := hsp.1.2 32 h
+    omega
+
+theorem trim_blank (X : List Nat) : trim (32 :: X) = trim X := by
+  unfold trim; rw [trimStart_blank]
+
+theorem ts_spellings_len : Gen.TIMESCALE_SPELLINGS.all (fun p => decide (p.1.length ≤ 5)) = true := by decide
+
+/-- in `… x␣SCALE` the suffix search (5, 4, 3 bytes, the first that is a time scale) finds the written spelling -/
+theorem suffixTs_text (pfx x sfx : List Nat) (ts : TS) (hsfx : (sfx, ts) ∈ Gen.TIMESCALE_SPELLINGS)
+    (hpa : isAscii pfx = true) (hp2 : 2 ≤ pfx.length) (hxa : isAscii x = true) (hxne : x ≠ [])
+    (hxw : ∀ c ∈ x, isWhitespace c = false) :
+    ∃ t, suffixTs (pfx ++ 32 :: (x ++ 32 :: sfx)) [5, 4, 3] = some (ts, t) ∧ trim t = sfx := by
+  have hsp := List.all_eq_true.mp ts_spellings_lookup _ hsfx
+  simp only [Bool.and_eq_true, decide_eq_true_eq, List.all_eq_true] at hsp
+  obtain ⟨⟨hlook, hlet⟩, hl2⟩ := hsp
+  have hl5 := List.all_eq_true.mp ts_spellings_len _ hsfx
+  simp only [decide_eq_true_eq] at hl5
+  have hsw : ∀ c ∈ sfx, isWhitespace c = false := fun c hc => letter_not_ws (hlet c hc)
+  have hsa : isAscii sfx = true := by
+    unfold isAscii; rw [List.all_eq_true]; intro c hc
+    have := hlet c hc; simp only [decide_eq_true_eq]; omega
+  have hsne : sfx ≠ [] := by intro e; rw [e] at hl2; simp at hl2
+  have hok : ∀ t, trim t = sfx → tsFromStr t = some ts := by
+    intro t ht; unfold tsFromStr; rw [ht]; exact hlook
+  -- x = x0 ++ [c]
+  obtain ⟨x0, c, hxc⟩ : ∃ x0 c, x = x0 ++ [c] := by
+    cases hr : x.reverse with
+    | nil => simp at hr; exact absurd hr hxne
+    | cons e r' => exact ⟨r'.reverse, e, by have := congrArg List.reverse hr; simpa using this⟩
+  have hcw : isWhitespace c = false := hxw c (by rw [hxc]; simp)
+  have hx0w : ∀ z ∈ x0, isWhitespace z = false := fun z hz => hxw z (by rw [hxc]; simp [hz])
+  generalize hT : pfx ++ 32 :: (x ++ 32 :: sfx) = T
+  have ha : isAscii T = true := by
+    rw [← hT]; simp only [isAscii_append, isAscii_cons, hpa, hxa, hsa, true_and, and_true]; omega
+  have hbl : byteLen T = T.length := byteLen_ascii T ha
+  have hlen : T.length = pfx.length + 1 + x.length + 1 + sfx.length := by rw [← hT]; simp; omega
+  have hx1 : 1 ≤ x.length := by rw [hxc]; simp
+  -- the candidate suffixes
+  have sl : ∀ (P sub : List Nat), T = P ++ sub → sliceOpt T (byteLen T - sub.length) (byteLen T) = some sub := by
+    intro P sub e; rw [e]; exact sliceOpt_last P sub (by rw [← e]; exact ha)
+  obtain ⟨s0, e, hse⟩ : ∃ s0 e, sfx = s0 ++ [e] := by
+    cases hr : sfx.reverse with
+    | nil => simp at hr; exact absurd hr hsne
+    | cons e r' => exact ⟨r'.reverse, e, by have := congrArg List.reverse hr; simpa using this⟩
+  have hew : isWhitespace e = false := hsw e (by rw [hse]; simp)
+  have trim_c : trim (c :: 32 :: sfx) = c :: 32 :: sfx := by
+    have e1 : c :: 32 :: sfx = c :: ((32 :: s0) ++ [e]) := by rw [hse]; simp
+    rw [e1]
+    exact trim_id c _ _ hcw hew
+  have fail_c : tsFromStr (c :: 32 :: sfx) = none := tsFromStr_none_of_blank _ (by rw [trim_c]; simp)
+  have fail_zc : ∀ z, (z = 32 ∨ isWhitespace z = false) → tsFromStr (z :: c :: 32 :: sfx) = none := by
+    intro z hz
+    apply tsFromStr_none_of_blank
+    rcases hz with h | h
+    · subst h; rw [trim_blank, trim_c]; simp
+    · have e1 : z :: c :: 32 :: sfx = z :: ((c :: 32 :: s0) ++ [e]) := by rw [hse]; simp
+      rw [e1, trim_id z _ _ h hew]; simp
+  have t_b : trim (32 :: sfx) = sfx := trim_pad_left sfx hsne hsw
+  have t_s : trim sfx = sfx := trim_nows sfx hsw
+  have e_b : T = (pfx ++ 32 :: x) ++ (32 :: sfx) := by rw [← hT]; simp
+  have e_s : T = (pfx ++ 32 :: (x ++ [32])) ++ sfx := by rw [← hT]; simp
+  have e_c : T = (pfx ++ 32 :: x0) ++ (c :: 32 :: sfx) := by rw [← hT, hxc]; simp
+  have hk : sfx.length = 2 ∨ sfx.length = 3 ∨ sfx.length = 4 ∨ sfx.length = 5 := by omega
+  rcases hk with hk | hk | hk | hk
+  · -- two letters: the 5- and 4-byte candidates contain a blank, the 3-byte one is `␣SCALE`
+    have h4 := sl _ _ e_c
+    have h3 := sl _ _ e_b
+    simp only [List.length_cons, hk] at h4 h3
+    -- the character before c
+    have h5 : ∃ z, (z = 32 ∨ isWhitespace z = false) ∧ sliceOpt T (byteLen T - 5) (byteLen T) = some (z :: c :: 32 :: sfx) := by
+      cases hr : x0.reverse with
+      | nil =>
+        have hx0 : x0 = [] := by simpa using hr
+        obtain ⟨p0, z, hpz⟩ : ∃ p0 z, pfx ++ [32] = p0 ++ [z] ∧ z = 32 := ⟨pfx, 32, rfl, rfl⟩
+        refine ⟨32, Or.inl rfl, ?_⟩
+        have e5 : T = pfx ++ (32 :: c :: 32 :: sfx) := by rw [e_c, hx0]; simp
+        have := sl _ _ e5
+        simp only [List.length_cons, hk] at this
+        exact this
+      | cons z r' =>
+        have hx0 : x0 = r'.reverse ++ [z] := by have := congrArg List.reverse hr; simpa using this
+        refine ⟨z, Or.inr (hx0w z (by rw [hx0]; simp)), ?_⟩
+        have e5 : T = (pfx ++ 32 :: r'.reverse) ++ (z :: c :: 32 :: sfx) := by rw [e_c, hx0]; simp
+        have := sl _ _ e5
+        simp only [List.length_cons, hk] at this
+        exact this
+    obtain ⟨z, hz, h5⟩ := h5
+    refine ⟨32 :: sfx, ?_, t_b⟩
+    rw [suffixTs_step_fail T 5 _ _ (by omega) h5 (fail_zc z hz), suffixTs_step_fail T 4 _ _ (by omega) h4 fail_c,
+      suffixTs_step_ok T 3 _ _ ts (by omega) h3 (hok _ t_b)]
+  · -- three letters
+    have h5 := sl _ _ e_c
+    have h4 := sl _ _ e_b
+    simp only [List.length_cons, hk] at h5 h4
+    refine ⟨32 :: sfx, ?_, t_b⟩
+    rw [suffixTs_step_fail T 5 _ _ (by omega) h5 fail_c, suffixTs_step_ok T 4 _ _ ts (by omega) h4 (hok _ t_b)]
+  · -- four letters
+    have h5 := sl _ _ e_b
+    simp only [List.length_cons, hk] at h5
+    exact ⟨32 :: sfx, suffixTs_step_ok T 5 _ _ ts (by omega) h5 (hok _ t_b), t_b⟩
+  · -- five letters
+    have h5 := sl _ _ e_s
+    rw [hk] at h5
+    exact ⟨sfx, suffixTs_step_ok T 5 _ _ ts (by omega) h5 (hok _ t_s), t_s⟩
+
 /-- NUMERIC FORMS: for the text `PREFIX␣x␣SCALE` (`x` any ASCII numeral text without blanks, `SCALE` any
-    spelling of at most three letters that `TimeScale::from_str` accepts) `Epoch::from_str` hands exactly `x`
+    spelling that `TimeScale::from_str` accepts) `Epoch::from_str` hands exactly `x`
     to `lexical_core::parse::<f64>` and exactly the written scale to the initializer of the written prefix -/
 theorem numeric_text_reads (dur : Nat → Nat → TS → Dur) (pfx : List Nat) (start fmt : Nat)
     (hp : (pfx = [74, 68] ∧ start = 2 ∧ fmt = 0) ∨ (pfx = [77, 74, 68] ∧ start = 3 ∧ fmt = 1) ∨
           (pfx = [83, 69, 67] ∧ start = 3 ∧ fmt = 2))
-    (x sfx : List Nat) (ts : TS) (hsfx : (sfx, ts) ∈ Gen.TIMESCALE_SPELLINGS) (hl : sfx.length ≤ 3)
+    (x sfx : List Nat) (ts : TS) (hsfx : (sfx, ts) ∈ Gen.TIMESCALE_SPELLINGS)
     (hxa : isAscii x = true) (hxne : x ≠ []) (hxw : ∀ c ∈ x, isWhitespace c = false) :
     epochFromStrWith dur (pfx ++ 32 :: (x ++ 32 :: sfx)) =
       match lexF64 x with
@@ -2277,35 +3019,14 @@ theorem numeric_text_reads (dur : Nat → Nat → TS → Dur) (pfx : List Nat) (
       | some bits => if finiteBits bits = true then numericEpoch fmt ts bits (dur fmt bits) else .err
       | none => .err := by
     unfold numericForm
-    rw [byteLen_ascii T ha, if_neg (by omega)]
-    -- the three-byte suffix
-    have h3 : ∃ t3, sliceOpt T (T.length - 3) T.length = some t3 ∧ trim t3 = sfx := by
-      by_cases h33 : sfx.length = 3
-      · refine ⟨sfx, ?_, trim_nows sfx hsw⟩
-        have e1 : T = (pfx ++ 32 :: (x ++ [32])) ++ sfx ++ [] := by rw [← hT]; simp
-        have := sliceOpt_mid (pfx ++ 32 :: (x ++ [32])) sfx [] (by rw [← e1]; exact ha)
-        rw [← e1] at this
-        have e2 : (pfx ++ 32 :: (x ++ [32])).length = T.length - 3 := by rw [hlen, ← hpl]; simp; omega
-        have e3 : (pfx ++ 32 :: (x ++ [32])).length + sfx.length = T.length := by rw [hlen, ← hpl]; simp; omega
-        rw [e2] at this
-        have e4 : T.length - 3 + sfx.length = T.length := by omega
-        rw [e4] at this; exact this
-      · have h32 : sfx.length = 2 := by omega
-        refine ⟨32 :: sfx, ?_, trim_pad_left sfx hsne hsw⟩
-        have e1 : T = (pfx ++ 32 :: x) ++ (32 :: sfx) ++ [] := by rw [← hT]; simp
-        have := sliceOpt_mid (pfx ++ 32 :: x) (32 :: sfx) [] (by rw [← e1]; exact ha)
-        rw [← e1] at this
-        have e2 : (pfx ++ 32 :: x).length = T.length - 3 := by rw [hlen, ← hpl]; simp; omega
-        rw [e2] at this
-        have e4 : T.length - 3 + (32 :: sfx).length = T.length := by simp; omega
-        rw [e4] at this; exact this
-    obtain ⟨t3, ht3, htrim⟩ := h3
+    obtain ⟨t3, ht3, htrim⟩ := suffixTs_text pfx x sfx ts hsfx hpa (by rw [hpl]; rcases hp with ⟨_, h, _⟩ | ⟨_, h, _⟩ | ⟨_, h, _⟩ <;> omega)
+      hxa hxne hxw
+    rw [hT] at ht3
     rw [ht3]
     simp only
-    have hts : tsFromStr t3 = some ts := by unfold tsFromStr; rw [htrim]; exact hlook
-    rw [hts]
-    simp only
-    rw [htrim, byteLen_ascii sfx hsa, if_neg (by omega)]
+    have hl5 := List.all_eq_true.mp ts_spellings_len _ hsfx
+    simp only [decide_eq_true_eq] at hl5
+    rw [byteLen_ascii T ha, htrim, byteLen_ascii sfx hsa, if_neg (by omega)]
     -- the numeral
     have e1 : T = pfx ++ (32 :: (x ++ [32])) ++ sfx := by rw [← hT]; simp
     have hsl := slice_mid pfx (32 :: (x ++ [32])) sfx (by rw [← e1]; exact ha)
